@@ -92,6 +92,8 @@ class Stdlib:
             return v.items
         if isinstance(v, SObj) and v.clsname == '$dictview':
             return v.fields['items']
+        if isinstance(v, SObj) and callable(v.fields.get('__iter__')):
+            return v.fields['__iter__']()
         return None
 
     # ------------------------------------------------------------------ attribute access
@@ -144,6 +146,10 @@ class Stdlib:
                     return v
             raise Unsupported(f'class attr {obj.name}.{attr}', node)
         if isinstance(obj, ExtRef):
+            for hook in self.attr_hooks:
+                r = hook(I, obj, attr)
+                if r is not NotImplemented:
+                    return r
             return ExtRef(obj.dotted + '.' + attr)
         if isinstance(obj, EnumMember):
             if attr == 'value':
